@@ -3,6 +3,7 @@ mod connect_h;
 mod settings_h;
 mod slices_h;
 mod worker_h;
+mod accept_h;
 
 use std::future::Future;
 use std::task::{Context, Poll, Waker};
